@@ -5216,9 +5216,18 @@ impl M2Model {
             header.playable_animation_lookup = None;
         }
 
-        // Clear post-BC optional fields we don't serialize
-        header.blend_map_overrides = None;
-        header.texture_combiner_combos = None;
+        // Optional header arrays we don't serialize: the parser decides from the version and the flags whether
+        // they are present, so they must be written (empty) exactly when it expects them
+        header.blend_map_overrides = if header.version >= 260 && (header.flags.bits() & 0x8000000 != 0) {
+            Some(M2Array::new(0, 0))
+        } else {
+            None
+        };
+        header.texture_combiner_combos = if header.flags.contains(M2ModelFlags::USE_TEXTURE_COMBINERS) {
+            Some(M2Array::new(0, 0))
+        } else {
+            None
+        };
         header.texture_transforms = None;
 
         // Suppress unused variable warning
@@ -5371,8 +5380,14 @@ impl M2Model {
         size += 2 * 4; // ribbon_emitters
         size += 2 * 4; // particle_emitters
 
-        // Note: Optional fields (blend_map_overrides, texture_combiner_combos, texture_transforms)
-        // are NOT included because write() always clears them to None before writing the header.
+        // Optional arrays whose presence the parser derives from the version and the flags
+        // (write() emits them empty); texture_transforms is always cleared by write().
+        if version_num >= 260 && (self.header.flags.bits() & 0x8000000 != 0) {
+            size += 2 * 4; // blend_map_overrides
+        }
+        if self.header.flags.contains(M2ModelFlags::USE_TEXTURE_COMBINERS) {
+            size += 2 * 4; // texture_combiner_combos
+        }
 
         size
     }
